@@ -1,19 +1,90 @@
-//! One module per property.
+//! One module per property + the replay protocol (DESIGN section 2).
 
-use crate::{Report, RunCtx};
-use serde_json::Value;
+use crate::{Report, RunCtx, Tier, Violation, out, run_worker};
+use serde_json::{Value, json};
+use std::collections::HashMap;
 
+pub mod c09;
+pub mod c09_real;
 pub mod c14;
+pub mod c16;
+pub mod c17;
+
+pub type Extra = HashMap<String, String>;
+
+pub struct Check {
+    pub id: &'static str,
+    pub run: fn(&RunCtx) -> Report,
+    /// In-process replay of a single scenario.
+    pub replay: fn(&RunCtx, &Value) -> Result<Vec<Violation>, String>,
+    /// Shard worker (deterministic subprocess): returns the shard's report.
+    pub worker: Option<fn(&RunCtx, usize, usize, &Extra) -> Report>,
+}
+
+pub fn registry() -> Vec<Check> {
+    vec![
+        Check { id: "C09", run: c09::run, replay: c09::replay, worker: None },
+        Check { id: "C14", run: c14::run, replay: c14::replay, worker: None },
+        Check { id: "C16", run: c16::run, replay: c16::replay, worker: None },
+        Check { id: "C17", run: c17::run, replay: c17::replay, worker: Some(c17::worker) },
+    ]
+}
+
+fn find(id: &str) -> Option<Check> {
+    registry().into_iter().find(|c| c.id == id)
+}
 
 pub fn run(ctx: &RunCtx) -> Option<Report> {
-    Some(match ctx.id.as_str() {
-        "C14" => c14::run(ctx),
-        _ => return None,
-    })
+    find(&ctx.id).map(|c| (c.run)(ctx))
+}
+
+/// Worker entry (deterministic subprocess): prints one JSON line (the report).
+pub fn worker(ctx: &RunCtx, extra: &[(String, String)]) -> i32 {
+    let Some(check) = find(&ctx.id) else {
+        eprintln!("unknown check {}", ctx.id);
+        return 2;
+    };
+    let extra: Extra = extra.iter().cloned().collect();
+    // single-scenario mode used by the replay protocol
+    if let Some(path) = extra.get("single") {
+        let Some(scenario) = read_scenario(path) else { return 2 };
+        let mut report = Report::new("replay");
+        match (check.replay)(ctx, &scenario) {
+            Ok(v) => report.violations = v,
+            Err(e) => report.error(e),
+        }
+        crate::emit(&report.to_value());
+        return 0;
+    }
+    let Some(worker) = check.worker else {
+        eprintln!("check {} has no worker mode", ctx.id);
+        return 2;
+    };
+    let shard: usize = extra.get("shard").and_then(|s| s.parse().ok()).unwrap_or(0);
+    let of: usize = extra.get("of").and_then(|s| s.parse().ok()).unwrap_or(1);
+    let report = worker(ctx, shard, of, &extra);
+    crate::emit(&report.to_value());
+    0
+}
+
+fn read_scenario(path: &str) -> Option<Value> {
+    let text = std::fs::read_to_string(path).map_err(|_| eprintln!("cannot read {path}")).ok()?;
+    let doc = serde_json::from_str::<Value>(&text).map_err(|_| eprintln!("cannot parse {path}")).ok()?;
+    Some(doc.get("scenario").cloned().unwrap_or(Value::Null))
+}
+
+fn violations_digest(vs: &[Violation]) -> String {
+    let mut keys: Vec<String> = vs.iter().map(|v| format!("{}|{}", v.key, v.what)).collect();
+    keys.sort();
+    keys.join("\n")
 }
 
 /// Replays a violation artefact: exit 1 when the violation reproduces, 0 when it does not, 2 on machinery error.
 pub fn replay(ctx: &RunCtx, path: &str) -> i32 {
+    let Some(check) = find(&ctx.id) else {
+        eprintln!("unknown check {}", ctx.id);
+        return 2;
+    };
     let Ok(text) = std::fs::read_to_string(path) else {
         eprintln!("cannot read {path}");
         return 2;
@@ -23,38 +94,102 @@ pub fn replay(ctx: &RunCtx, path: &str) -> i32 {
         return 2;
     };
     let scenario = doc.get("scenario").cloned().unwrap_or(Value::Null);
-    let result = match ctx.id.as_str() {
-        "C14" => c14::replay(ctx, &scenario),
-        _ => {
-            eprintln!("unknown check {}", ctx.id);
-            return 2;
+    let wanted_key = doc.get("key").and_then(|k| k.as_str()).unwrap_or("").to_string();
+    let tier = if doc.get("tier").and_then(|t| t.as_str()) == Some("thorough") { Tier::Thorough } else { ctx.tier };
+    let ctx = &RunCtx { tier, ..ctx.clone() };
+
+    let report_found = |vs: &[Violation], how: &str| {
+        for v in vs {
+            out!("VIOLATION property={} replay={}", ctx.id, path);
+            out!("  key={} :: {} [{}]", v.key, crate::truncate(&v.what, 600), how);
         }
     };
-    match result {
-        Ok(violations) if violations.is_empty() => {
-            println!("replay: no violation reproduced");
-            0
-        }
-        Ok(violations) => {
-            for v in violations {
-                println!("VIOLATION property={} replay={}", ctx.id, path);
-                println!("  key={} :: {}", v.key, v.what);
-            }
-            1
-        }
-        Err(e) => {
-            eprintln!("MACHINERY-ERROR replay: {e}");
-            2
-        }
-    }
-}
 
-/// Worker entry (deterministic subprocess), prints JSON lines.
-pub fn worker(ctx: &RunCtx, _extra: &[(String, String)]) -> i32 {
-    match ctx.id.as_str() {
-        _ => {
-            eprintln!("check {} has no worker mode", ctx.id);
-            2
+    let Some(shard_info) = scenario.get("_shard").cloned() else {
+        // pure, in-process scenario
+        return match (check.replay)(ctx, &scenario) {
+            Ok(v) if v.is_empty() => {
+                out!("replay: no violation reproduced");
+                0
+            }
+            Ok(v) => {
+                report_found(&v, "in-process");
+                1
+            }
+            Err(e) => {
+                eprintln!("MACHINERY-ERROR replay: {e}");
+                2
+            }
+        };
+    };
+
+    // 1. single-scenario attempts in fresh determinised processes
+    let exe = std::env::current_exe().expect("no exe");
+    let recorded_hs = shard_info.get("hash_seed").and_then(|h| h.as_u64()).unwrap_or(0);
+    let run_single = |hs: u64| -> Option<Vec<Violation>> {
+        let args: Vec<String> =
+            vec!["worker".into(), ctx.id.clone(), "--tier".into(), ctx.tier.name().into(), "--seed".into(), ctx.seed.to_string(), "--single".into(), path.into()];
+        let out = run_worker(&exe, &args, hs, 0);
+        let r = out.lines.last().and_then(Report::from_value)?;
+        if !r.errors.is_empty() {
+            eprintln!("replay worker: {:?}", r.errors);
+        }
+        Some(r.violations)
+    };
+    let mut seeds = vec![recorded_hs];
+    seeds.extend((0..16).filter(|s| *s != recorded_hs));
+    for hs in seeds {
+        let Some(vs) = run_single(hs) else { continue };
+        let hit: Vec<Violation> = vs.into_iter().filter(|v| wanted_key.is_empty() || v.key == wanted_key).collect();
+        if !hit.is_empty() {
+            // the same schedule must fail every time: run again, identical observation required
+            let again: Vec<Violation> =
+                run_single(hs).unwrap_or_default().into_iter().filter(|v| wanted_key.is_empty() || v.key == wanted_key).collect();
+            if violations_digest(&hit) != violations_digest(&again) {
+                eprintln!("MACHINERY-ERROR replay diverged between two identical runs (hash seed {hs})");
+                return 2;
+            }
+            report_found(&hit, &format!("single scenario, hash seed {hs}, reproduced twice"));
+            return 1;
         }
     }
+
+    // 2. whole-shard replay with the recorded seed
+    let shard = shard_info.get("shard").and_then(|x| x.as_u64()).unwrap_or(0) as usize;
+    let of = shard_info.get("of").and_then(|x| x.as_u64()).unwrap_or(1) as usize;
+    let extra: Vec<String> = shard_info
+        .get("extra")
+        .and_then(|e| e.as_array())
+        .map(|a| a.iter().filter_map(|x| x.as_str().map(|s| s.to_string())).collect())
+        .unwrap_or_default();
+    let run_shard = || -> Option<Vec<Violation>> {
+        let mut args: Vec<String> = vec![
+            "worker".into(),
+            ctx.id.clone(),
+            "--tier".into(),
+            ctx.tier.name().into(),
+            "--shard".into(),
+            shard.to_string(),
+            "--of".into(),
+            of.to_string(),
+            "--seed".into(),
+            ctx.seed.to_string(),
+        ];
+        args.extend(extra.iter().cloned());
+        let out = run_worker(&exe, &args, recorded_hs, shard);
+        out.lines.last().and_then(Report::from_value).map(|r| r.violations)
+    };
+    let first: Vec<Violation> = run_shard().unwrap_or_default().into_iter().filter(|v| wanted_key.is_empty() || v.key == wanted_key).collect();
+    if first.is_empty() {
+        out!("replay: no violation reproduced (single-scenario attempts under 17 hash seeds and shard replay)");
+        return 0;
+    }
+    let second: Vec<Violation> = run_shard().unwrap_or_default().into_iter().filter(|v| wanted_key.is_empty() || v.key == wanted_key).collect();
+    if violations_digest(&first) != violations_digest(&second) {
+        eprintln!("MACHINERY-ERROR shard replay diverged between two identical runs");
+        return 2;
+    }
+    report_found(&first[..first.len().min(3)], &format!("shard {shard}/{of} replay, hash seed {recorded_hs}, reproduced twice"));
+    let _ = json!(null);
+    1
 }
